@@ -5,6 +5,7 @@ CONSTANTS
   Closers = {1, 2}
   AsIs_D8 = FALSE
   AsIs_D9 = FALSE
+  Mut_CloseSkipsDeadStream = FALSE
 SPECIFICATION TSpec
 CONSTRAINT Mark
 POSTCONDITION Post
